@@ -3,29 +3,52 @@ reference device.  Line format (the Lean driver `cfgx run`, lean/NxsModel/Driver
 
     cfgx run <flags> <pad> <mode> <initEn bits> <initDiv ints> <call;call;…>
 
+  flags the flags byte the device advertises, 0..255 (bit 0 divider support, bit 1 ACK support, the rest reserved)
   pad   rx padding the reference device advertises (the client aligns every write to it)
-  mode  letters (or `-`):  h  the calls go through the NxscopeHandler wrappers (else CommHandler)
-                           s  the device was left streaming by a previous session when the client connects
-                           r  the client starts the stream after connect: stream frames arrive during the whole
-                              configuration exchange, interleaved with the acknowledgements
+  mode  the harness-side dimensions (the model does not depend on them, the driver ignores the token): letters or `-`,
+        then `/`-separated extras
+          h  the calls go through the NxscopeHandler wrappers (else CommHandler)
+          s  the device was left streaming by a previous session when the client connects: stream frames are already
+             waiting in the pipe, and one more is under way when the stop request of connect() arrives
+          r  the client starts the stream after connect: stream frames arrive during the whole configuration
+             exchange, interleaved with the acknowledgements
+          u  the stream is started at CommHandler level and NOBODY reads it: `/U<k>` stream frames (default 80) have
+             arrived at the client before the first call
+          /T<t0>.<t1>.…          the type byte of every channel (default 10 = FLOAT; 0 = UNDEF, 0x80 = critical bit)
+          /R<en>:<div>:<calls>   RECONNECT: a first session ran on the SAME handler object — device state <en>/<div>,
+                                 connect, <calls>, disconnect; then the device was put into the state <initEn>/<initDiv>
+                                 of the line (power-cycled, configured by somebody else) and the handler connected
+                                 again.  The calls of the line run in this second session.  (Model side: the client
+                                 after any connect is `Client.init` of the device state at that moment.)
   call  e<ids> | d<ids> | v<val>:<ids> | D | A | N | W:<oDiv>:<oEn>, ids = comma list of Python indices (signed ints,
         T / F = True / False); a trailing `!` = the wrapper is called with writenow=True (mode h only); without it
         the wrappers are called WITHOUT their writenow argument (the documented default: buffered).  A single id is
         passed as a bare int (bool), several ids as a list.
+
+The link of this module hands the device the BYTE STREAM (a request split over several interface writes is reassembled)
+and, once the handshake is over, in blocks of <pad> bytes as a device receiving with rx padding does: bytes beyond the
+last complete block are not consumed until the block is full.
 """
 import vsim
 import refdev
 from common import hexs, exc_name
 from sessionlib import bits, ints, mk_chans, OutcomePolicy
 
+DEFAULT_TYPE = 10
+DEFAULT_FLOOD = 80
+
 
 class StreamingPolicy(OutcomePolicy):
     """as OutcomePolicy; while the stream runs the device has a stream frame under way whenever a set request
-    arrives, so that frame reaches the client between the request and its acknowledgement"""
+    arrives (`interleave`) resp. when the stop request of connect() arrives (`at_stop`), so that frame reaches the
+    client between the request and its acknowledgement"""
     interleave = False
+    at_stop = False
 
     def __call__(self, dev, kind, req):
         if self.interleave and kind in ("enable", "div"):
+            dev.stream_tick()
+        if self.at_stop and kind == "start":
             dev.stream_tick()
         return super().__call__(dev, kind, req)
 
@@ -47,6 +70,35 @@ def split_call(call):
     return call, None
 
 
+def parse_mode(mode):
+    """-> dict(letters, types or None, prev (en, div, calls) or None, flood)"""
+    parts = ("" if mode == "-" else mode).split("/")
+    m = dict(letters=parts[0], types=None, prev=None, flood=DEFAULT_FLOOD)
+    for x in parts[1:]:
+        if x[:1] == "T":
+            m["types"] = [int(t) for t in x[1:].split(".")]
+        elif x[:1] == "R":
+            en, div, calls = x[1:].split(":", 2)
+            m["prev"] = ([] if en == "-" else [c == "1" for c in en], [] if div == "-" else [int(v) for v in div.split(",")],
+                         [c for c in calls.split(";") if c])
+        elif x[:1] == "U":
+            m["flood"] = int(x[1:])
+        else:
+            raise ValueError("mode extra: " + x)
+    return m
+
+
+def mode_str(letters="", types=None, prev=None, flood=None):
+    s = letters
+    if types is not None:
+        s += "/T" + ".".join(str(t) for t in types)
+    if prev is not None:
+        s += f"/R{bits(prev[0])}:{ints(prev[1])}:{';'.join(prev[2])}"
+    if flood is not None:
+        s += f"/U{flood}"
+    return s or "-"
+
+
 def parse_line(line):
     t = line.split(" ")
     if t[0] == "cfgx":
@@ -57,43 +109,187 @@ def parse_line(line):
     raise ValueError("not a cfgx line: " + line[:40])
 
 
+def make_link(sim, device, poll=0.01, stream_every=None):
+    """ICommInterface over the reference device: the device sees the byte stream (reassembled), and while
+    `link.blocks` is set only complete blocks of its rx padding"""
+    from nxslib.intf.iintf import ICommInterface
+
+    class Link(ICommInterface):
+        def __init__(self):
+            super().__init__()
+            self.writes = []
+            self.reads = 0
+            self.blocks = False
+            self.pipe = bytearray()      # written, not yet received by the device (incomplete block)
+            self.devbuf = bytearray()    # received by the device, not yet a complete frame
+
+        def start(self):
+            pass
+
+        def stop(self):
+            pass
+
+        def drop_all(self):
+            pass
+
+        def reset(self):
+            self.blocks = False
+            self.pipe.clear()
+            self.devbuf.clear()
+
+        def _read(self):
+            self.reads += 1
+            if stream_every and self.reads % stream_every == 0:
+                device.stream_tick()
+            ok = sim.block(lambda: len(device.rx) > 0, poll, "link-read")
+            if not ok:
+                return b""
+            out = bytes(device.rx)
+            device.rx.clear()
+            return out
+
+        def _write(self, data):
+            self.writes.append(bytes(data))
+            sim.yield_("link-write")
+            self.pipe += data
+            p = device.rxpadding if self.blocks else 0
+            k = len(self.pipe) - (len(self.pipe) % p if p else 0)
+            self.devbuf += self.pipe[:k]
+            del self.pipe[:k]
+            self.parse()
+
+        def parse(self):
+            """a conforming receiver on a byte stream: start byte, declared length, checksum; everything else skipped"""
+            b = self.devbuf
+            while True:
+                i = b.find(bytes([device.codec.sof]))
+                if i < 0:
+                    b.clear()
+                    return
+                del b[:i]
+                if len(b) < 4:
+                    return
+                flen = b[1] | b[2] << 8
+                if b[3] > 8 or flen < 6:
+                    del b[:1]
+                    continue
+                if flen > len(b):
+                    return
+                fr = device.codec.decode_at(bytes(b), 0)
+                if fr is None:
+                    del b[:1]
+                    continue
+                del b[:flen]
+                device.handle(fr[0], fr[1])
+
+    device.now = lambda: sim.now
+    return Link()
+
+
 def run_calls(flags, pad, mode, init_en, init_div, calls, seed=None):
-    """returns (list of per-call state strings in the format of the Lean driver, info dict)"""
-    info = {}
-    high = "h" in mode
+    """returns (list of per-call state strings in the format of the Lean driver, info dict); if the session ends with
+    an exception / a simulation verdict, the states produced so far are in info["out"] and the exception is raised"""
+    info = {"out": []}
+    m = parse_mode(mode)
+    letters = m["letters"]
+    high = "h" in letters
+    n = len(init_en)
+    types = m["types"] or [DEFAULT_TYPE] * n
+    if len(types) != n:
+        raise ValueError("types / channels mismatch")
 
     def scenario(sim):
         from nxslib.comm import CommHandler
         from nxslib.proto.parse import Parser
         pol = StreamingPolicy()
-        dev = refdev.RefDevice(mk_chans(init_en, init_div), flags=flags, rxpadding=pad, policy=pol)
-        dev.started = "s" in mode
-        link = refdev.make_link(sim, dev, stream_every=3 if ("s" in mode or "r" in mode) else None)
+        first = m["prev"] or (init_en, init_div, None)
+        dev = refdev.RefDevice(mk_chans(first[0], first[1], types), flags=flags, rxpadding=pad, policy=pol)
+        streaming = any(c in letters for c in "sru")
+        link = make_link(sim, dev, stream_every=3 if streaming else None)
         if high:
             from nxslib.nxscope import NxscopeHandler
             nx = NxscopeHandler(link, Parser())
-            nx.connect()
             comm = nx._comm
         else:
             nx = None
             comm = CommHandler(link, Parser())
-            comm.connect()
         api = nx if high else comm
+
+        def arg(ids):
+            return ids[0] if len(ids) == 1 else ids
+
+        def do_call(body, kw):
+            if body == "D":
+                api.channels_default_cfg(**kw)
+            elif body == "A":
+                comm.ch_enable_all()
+            elif body == "N":
+                api.ch_disable_all(**kw)
+            elif body.startswith("W:"):
+                api.channels_write()
+            elif body[0] == "e":
+                api.ch_enable(arg(parse_ids(body[1:])), **kw)
+            elif body[0] == "d":
+                api.ch_disable(arg(parse_ids(body[1:])), **kw)
+            elif body[0] == "v":
+                v, cs = body[1:].split(":")
+                api.ch_divider(arg(parse_ids(cs)), int(v), **kw)
+            else:
+                raise ValueError(body)
+
+        if m["prev"]:
+            # first session on the same handler object; everything acknowledged, errors of bad arguments ignored
+            (nx or comm).connect()
+            link.blocks = True
+            for call in m["prev"][2]:
+                body, now = split_call(call)
+                try:
+                    do_call(body, {"writenow": True} if now is not None else {})
+                except Exception as e:  # noqa: BLE001
+                    info.setdefault("prev_errors", []).append((call, exc_name(e)))
+            info["prev_dev_before_disconnect"] = (bits(dev.en), ints(dev.div))
+            (nx or comm).disconnect()
+            info["prev_live_after"] = [t.name for t in sim.live_tasks()]
+            # the device is power-cycled / configured by somebody else
+            for ch, e, d in zip(dev.chans, init_en, init_div):
+                ch["en"], ch["div"] = bool(e), int(d)
+            dev.rx.clear()
+            dev.started = False
+            link.reset()
+        c0 = dev.stream_cntr
+        if "s" in letters:
+            # left streaming by a previous session: frames already in the pipe, one under way at the stop request
+            dev.started = True
+            for _ in range(3):
+                dev.stream_tick()
+            pol.at_stop = True
+        (nx or comm).connect()
+        pol.at_stop = False
+        link.blocks = True
+        info["stream_frames_at_connect"] = dev.stream_cntr - c0
         info["dev_started_after_connect"] = dev.started
-        n = len(init_en)
-        if "r" in mode:
+        info["dev_after_connect"] = (bits(dev.en), ints(dev.div))
+        if "r" in letters:
             # the stream runs during the configuration exchange (the write nx.stream_start() performs first
             # finds nothing to change)
             (nx or comm).stream_start()
             info["dev_started_by_client"] = dev.started
             pol.interleave = True
-        info["dev_after_connect"] = (bits(dev.en), ints(dev.div))
+        elif "u" in letters:
+            # stream at CommHandler level, nobody reads it; the frames have reached the client before the first call
+            comm.stream_start()
+            info["dev_started_by_client"] = dev.started
+            c1 = dev.stream_cntr
+            for _ in range(m["flood"]):
+                dev.stream_tick()
+            sim.block(lambda: len(dev.rx) == 0, 2.0, "flood-delivered")
+            vsim.vsleep(0.05)
+            info["flood_frames"] = dev.stream_cntr - c1
+            info["flood_undelivered_bytes"] = len(dev.rx)
+        info["dev_before_calls"] = (bits(dev.en), ints(dev.div))
         streamed0 = dev.stream_cntr
 
-        def arg(ids):
-            return ids[0] if len(ids) == 1 else ids
-
-        out = []
+        out = info["out"]
         for call in calls:
             body, now = split_call(call)
             kw = {}
@@ -114,23 +310,7 @@ def run_calls(flags, pad, mode, init_en, init_div, calls, seed=None):
                     pol.pending["div"].append(outcomes[0])
                 pol.pending["enable"].append(outcomes[1])
             try:
-                if body == "D":
-                    api.channels_default_cfg(**kw)
-                elif body == "A":
-                    comm.ch_enable_all()
-                elif body == "N":
-                    api.ch_disable_all(**kw)
-                elif body.startswith("W:"):
-                    api.channels_write()
-                elif body[0] == "e":
-                    api.ch_enable(arg(parse_ids(body[1:])), **kw)
-                elif body[0] == "d":
-                    api.ch_disable(arg(parse_ids(body[1:])), **kw)
-                elif body[0] == "v":
-                    v, cs = body[1:].split(":")
-                    api.ch_divider(arg(parse_ids(cs)), int(v), **kw)
-                else:
-                    raise ValueError(call)
+                do_call(body, kw)
             except Exception as e:
                 err = exc_name(e)
             pol.pending["div"].clear()
@@ -140,6 +320,8 @@ def run_calls(flags, pad, mode, init_en, init_div, calls, seed=None):
                 for x in sent:
                     if len(x) % pad:
                         info.setdefault("unaligned", []).append((call, len(x), pad))
+                if sum(len(x) for x in sent) % pad:
+                    info.setdefault("unaligned_stream", []).append((call, sum(len(x) for x in sent), pad))
             ch = comm._channels
             if high:
                 # the public view of the client's copy of the device description
@@ -151,14 +333,19 @@ def run_calls(flags, pad, mode, init_en, init_div, calls, seed=None):
                        f"new={bits(ch.en_new)}/{ints(ch.div_new)};dev={bits(dev.en)}/{ints(dev.div)};"
                        f"cp={bits(c.en for c in cps)}/{ints(c.div for c in cps)};rs={int(ch.en_resync)}{int(ch.div_resync)}")
         info["stream_frames_during"] = dev.stream_cntr - streamed0
-        if not high and "r" in mode:
+        info["calls_done"] = True
+        if ("r" in letters and not high) or "u" in letters:
             comm.stream_stop()
         (nx or comm).disconnect()
         info["live_after"] = [t.name for t in sim.live_tasks()]
-        return out
+        return list(out)
 
     r, sim = vsim.run_sim(scenario, seed=seed, time_limit=3000.0, real_limit=30.0)
     info["errors"] = [(n, repr(e)) for n, e, _ in sim.errors]
     if isinstance(r, BaseException):
+        try:
+            r.c07_info = info
+        except Exception:  # noqa: BLE001
+            pass
         raise r
     return r, info
